@@ -36,15 +36,29 @@ STACK_BUDGET = 2 * 1024 * 1024
 
 
 def builtin_names(repo):
+    """names of the built-in filters, tests and global functions, read from defaults.rs (bodies of build_builtin_filters /
+    build_builtin_tests / build_globals, older trees: get_*); raises when a list comes out implausibly short - a sweep
+    over the wrong names tests nothing"""
     src = open(os.path.join(repo, "minijinja/src/defaults.rs")).read()
-    fsrc = src.split("fn get_builtin_tests")[0] if "fn get_builtin_tests" in src else src
-    filters = sorted(set(re.findall(r'rv\.insert\(\s*"([A-Za-z_]+)"', fsrc)))
-    tsrc = src.split("fn get_builtin_tests")[1].split("fn get_globals")[0] if "fn get_builtin_tests" in src else ""
-    tests = sorted(set(re.findall(r'rv\.insert\(\s*"([A-Za-z_]+)"', tsrc)))
-    gsrc = src.split("fn get_globals")[1] if "fn get_globals" in src else ""
-    funcs = sorted(set(re.findall(r'rv\.insert\(\s*"([A-Za-z_]+)"', gsrc)))
-    contrib = ["pluralize", "filesizeformat", "truncate", "wordcount", "wordwrap", "striptags", "random", "datetimeformat"]
-    return filters + contrib, tests, sorted(set(funcs + ["range", "dict", "namespace", "cycler", "joiner", "debug", "lipsum", "randrange"]))
+
+    def body(*fn_names):
+        for fn in fn_names:
+            m = re.search(r"fn\s+%s\s*\(" % fn, src)
+            if m:
+                b = src.find("{", m.end())
+                e = parser_graph.match_brace(src, b)
+                names = re.findall(r'rv\.insert\(\s*"([A-Za-z_]+)"', src[b:e])
+                if names:
+                    return sorted(set(names))
+        return []
+
+    filters = body("build_builtin_filters", "get_builtin_filters")
+    tests = body("build_builtin_tests", "get_builtin_tests")
+    funcs = body("build_globals", "get_globals")
+    if len(filters) < 30 or len(tests) < 15 or len(funcs) < 3 or "divisibleby" not in tests or "upper" not in filters:
+        raise RuntimeError("cannot read the built-in names from defaults.rs: %d filters, %d tests, %d functions" % (len(filters), len(tests), len(funcs)))
+    contrib_filters = ["pluralize", "filesizeformat", "truncate", "wordcount", "wordwrap", "striptags", "random", "datetimeformat", "dateformat", "timeformat"]
+    return filters + contrib_filters, tests, sorted(set(funcs + ["range", "dict", "namespace", "cycler", "joiner", "debug", "lipsum", "randrange"]))
 
 
 DEEP_DATA = [
@@ -617,6 +631,66 @@ def format_text_family():
     return out, direct
 
 
+def format_cap(repo):
+    """MAX_FORMAT_NUMBER of formatting.rs, evaluated; raises when it cannot be read (the cap-aware family would probe nothing)"""
+    src = open(os.path.join(repo, "minijinja/src/formatting.rs")).read()
+    m = re.search(r"const\s+MAX_FORMAT_NUMBER\s*:\s*usize\s*=\s*([^;]+);", src)
+    if not m:
+        raise RuntimeError("formatting.rs has no MAX_FORMAT_NUMBER: the cap-aware format family cannot find the cap")
+    e = m.group(1)
+    for k, v in (("i16::MAX", "32767"), ("u16::MAX", "65535"), ("i32::MAX", "2147483647"), ("u32::MAX", "4294967295"), ("as usize", ""), ("_", "")):
+        e = e.replace(k, v)
+    if not re.fullmatch(r"[0-9+\-*/() ]+", e):
+        raise RuntimeError("cannot evaluate MAX_FORMAT_NUMBER = %s" % m.group(1))
+    return int(eval(e.replace("/", "//")))
+
+
+def format_cap_family(repo):
+    """widths and precisions AT the cap of the code (read from formatting.rs on every run): cap-3 .. cap+1, 32766..32768,
+    65533..65536 x every conversion x floats with exponents -324..308 (subnormal, 1e-5, 0.001, 0.5, 1e15, 1e300, inf, nan,
+    -0.0) and integers of every width; printf style through the filter, str.format style directly"""
+    cap = format_cap(repo)
+    nums = sorted({cap - 3, cap - 2, cap - 1, cap, cap + 1, 32766, 32767, 32768, 65533, 65534, 65535, 65536})
+    floats = ["5e-324", "1e-320", "2.2250738585072014e-308", "1e-300", "1e-100", "1e-5", "0.0001", "0.00012345", "0.001", "0.009", "0.5", "1.5", "123456.789", "1e15", "1e16", "1e100", "1e300",
+              "1.7976931348623157e308", "(1e308 * 10)", "((1e308 * 10) - (1e308 * 10))", "-0.0", "-0.001"]
+    ints = ["0", "1", "-1", "255", "65535", "2147483647", "9223372036854775807", "18446744073709551615", "170141183460469231731687303715884105727", "340282366920938463463374607431768211455", "true", "'ab'", "none"]
+    out, direct = [], []
+    for n in nums:
+        for cv in ["e", "E", "f", "F", "g", "G", "s", "r", "d", "x", "c", "o", "i", "a"]:
+            for a in floats + (ints if cv not in ("e", "E", "F", "G") else ints[:3]):
+                out.append("{{ '%%.%d%s'|format(%s)|length }}" % (n, cv, a))
+                if cv in ("g", "G", "s", "e", "f", "d"):
+                    out.append("{{ '%%%d.%d%s'|format(%s)|length }}" % (n, n, cv, a))
+                    out.append("{{ '%%0%d.%d%s'|format(%s)|length }}" % (3, n - 1, cv, a))
+                    out.append("{{ '%%#-%d%s'|format(%s)|length }}" % (n, cv, a))
+        jf = [5e-324, 1e-320, 1e-300, 1e-5, 0.0001, 0.00012345, 0.001, 0.009, 0.5, 1.5, 123456.789, 1e15, 1e16, 1e300, -0.0, -0.001]
+        ji = [0, 1, -1, 255, 2 ** 63 - 1, 2 ** 64 - 1, True, "ab", None]
+        for spec in ["{:.%d}", "{:.%dg}", "{:.%dG}", "{:.%de}", "{:.%df}", "{:.%d%%}", "{:%d.%d}", "{:#.%dg}", "{:0%d.%dg}", "{:,.%df}", "{:%d}", "{:>%d}", "{:*^%d}", "{:+.%de}", "{:.%ds}", "{:%dd}", "{:%dx}", "{:#%db}", "{:.%dn}"]:
+            fs = spec.replace("%%", "\0").replace("%d", str(n)).replace("\0", "%")
+            for a in jf + ji:
+                direct.append(("", {"format_only": fs, "style": "str", "args": [a]}))
+    return out, direct
+
+
+def numeric_args_family(repo):
+    """every test and filter with numeric arguments x {0, -1, MIN, MAX, floats} on numeric subjects"""
+    filters, tests, funcs = builtin_names(repo)
+    subj = ["0", "5", "-5", "1.5", "-0.0", "9223372036854775807", "(-9223372036854775807 - 1)", "18446744073709551615", "170141183460469231731687303715884105727",
+            "(-170141183460469231731687303715884105727 - 1)", "340282366920938463463374607431768211455", "(1e308 * 10)", "((1e308 * 10) - (1e308 * 10))", "true", "'5'"]
+    args = ["0", "-1", "1", "2", "0.0", "-0.0", "0.5", "-1.5", "9223372036854775807", "(-9223372036854775807 - 1)", "18446744073709551615", "(-170141183460469231731687303715884105727 - 1)",
+            "340282366920938463463374607431768211455", "(1e308 * 10)", "((1e308 * 10) - (1e308 * 10))", "1e-320", "false", "none"]
+    out = []
+    for x in subj:
+        for a in args:
+            for t in tests:
+                out.append("{{ %s is %s(%s) }}" % (x, t, a))
+            for f in filters:
+                out.append("{{ %s|%s(%s) }}" % (x, f, a))
+            for op in ("%", "//", "/", "**", "*", "-", "+"):
+                out.append("{{ %s %s %s }}" % (x, op, a))
+    return out
+
+
 def mutated_fixtures(repo, rng, n):
     srcs = []
     for f in sorted(glob.glob(os.path.join(repo, "minijinja/tests/inputs/*.txt")) + glob.glob(os.path.join(repo, "minijinja/tests/parser-inputs/*.txt"))
@@ -924,8 +998,9 @@ def main():
         # in parallel) into an immediate allocation failure / an early hang verdict
         lowmem_groups = [("widths", width_family()), ("cyclic", cyclic_family(REPO))]
         fmt_templates, fmt_direct = format_text_family()
-        groups.append(("formattext", fmt_templates))
-        line_groups = [("linesyntax", line_syntax_family()), ("formatdirect", fmt_direct)]
+        cap_templates, cap_direct = format_cap_family(REPO)
+        groups += [("formattext", fmt_templates), ("formatcaps", cap_templates), ("numericargs", numeric_args_family(REPO))]
+        line_groups = [("linesyntax", line_syntax_family()), ("formatdirect", fmt_direct), ("formatcapsdirect", cap_direct)]
         labels = {t: l for l, t in nest}
     hist = collections.Counter()
     crashes = []
@@ -982,7 +1057,7 @@ def main():
         alt_passes = []
     elif quick:
         full_cyclic = [("cyclic", cyclic_family(REPO))]
-        pick = [(g, es) for g, es in groups if g in ("oddvalues", "escaped", "formattext", "multi")]
+        pick = [(g, es) for g, es in groups if g in ("oddvalues", "escaped", "formattext", "multi", "numericargs")]
         # the optional minijinja-contrib features only exist in this build: their width / count / range boundaries
         nums = ["0", "1", "-1", "100000", "1000001", "253402207200", "253402300800", "1000000000000", "-1000000000000", "9223372036854775807", "-9223372036854775808", "18446744073709551615", "1e308", "-1e308"]
         contrib_group = []
